@@ -1,6 +1,7 @@
-# driver/sparselib.py -- sparse-matrix cases (executor kinds sp.hist / sp.probe / sp.prod): printers for both
+# driver/sparselib.py -- sparse-matrix cases (executor kinds sp.hist / sp.probe / sp.prod / sp.hprod): printers for both
 # sides, a parser of the dumped state, the well-formedness predicate evaluated on the public fields, and an
-# independent dictionary-of-keys reference model (the search oracle of C06 / C07).
+# independent dictionary-of-keys reference model (the search oracle of C06 / C07) for the rational, f64 and
+# Complex<f64> instances; second half: structured pattern / value / vector / operation classes of round four.
 from fractions import Fraction
 from common import *
 
@@ -284,3 +285,542 @@ def oracle_prod(b, x, y, a, items):
     for n, g, e in zip(names, got, exp):
         if g[1] != e: return "%s = %r, dense reference %r" % (n, g[1], e)
     return None
+
+# =====================================================================================================================
+# Round four ("special values"): sp.hprod (products on the matrix a history leaves behind, before and after a scale),
+# a reference for the float instances (f64 / Complex<f64>) of every observable, an oracle for in-range probes, and the
+# structured pattern / value / vector classes shared by the generators of C06 and C07.
+# =====================================================================================================================
+import math
+
+def hprod_line(elt, b, ops, x, y, a):
+    return ("sp.hprod " + tok_build(elt, b) + " " + " ".join(op_line(elt, o) for o in ops)).strip() + \
+           " | %s %s %s" % (tok_vec(elt, x), tok_vec(elt, y), tok_scalar(elt, a))
+
+def hprod_term(elt, b, ops, x, y, a):
+    """the answer of sp.hprod, composed of existing model functions only (sp_build, sp_run, sp_mul, sp_tmul, sp_transpose,
+    dot, sp_to_dense, sp_scale and the printers of Model/SparseOps.v)"""
+    A, F = ARITH[elt], FLAT[elt]
+    xs, ys = coq_vec(elt, x), coq_vec(elt, y)
+    P = ("(fun s : sparse %(A)s => "
+         "fl_res (fl_list %(F)s) (@sp_mul %(A)s s %(x)s) ++ "
+         "fl_res (fl_list %(F)s) (@sp_tmul %(A)s s %(y)s) ++ "
+         "fl_res (fl_list %(F)s) (bind (@sp_transpose %(A)s s) (fun t => @sp_mul %(A)s t %(y)s)) ++ "
+         "fl_res %(F)s (bind (@sp_mul %(A)s s %(x)s) (fun u => @dot %(A)s %(y)s u)) ++ "
+         "fl_res %(F)s (bind (@sp_tmul %(A)s s %(y)s) (fun w => @dot %(A)s w %(x)s)) ++ "
+         "fl_res (@fl_mat %(A)s %(F)s) (@sp_to_dense %(A)s s))") % {"A": A, "F": F, "x": xs, "y": ys}
+    return ("(let P := %s in match @sp_build %s %s with "
+            "| Ok s0 => match @sp_run %s %s s0 with "
+            "| Ok s => P s ++ match @sp_scale %s s %s with Ok s2 => P s2 | Panic k => fl_panic k end "
+            "| Panic k => fl_panic k end "
+            "| Panic k => fl_panic k end)") % (P, A, coq_build(elt, b), A, coq_list([op_coq(elt, o) for o in ops]), A, coq_scalar(elt, a))
+
+# ------------------------------------------------------------------ exact values of float answers, error bounds
+class CQ:
+    """exact complex rational (the exact value of a Complex<f64>)"""
+    __slots__ = ("re", "im")
+    def __init__(self, re, im=0): self.re, self.im = Fraction(re), Fraction(im)
+    def __add__(self, o): o = cq(o); return CQ(self.re + o.re, self.im + o.im)
+    __radd__ = __add__
+    def __mul__(self, o): o = cq(o); return CQ(self.re * o.re - self.im * o.im, self.re * o.im + self.im * o.re)
+    __rmul__ = __mul__
+    def __eq__(self, o): o = cq(o); return self.re == o.re and self.im == o.im
+    def __ne__(self, o): return not self.__eq__(o)
+    def __hash__(self): return hash((self.re, self.im))
+    def __repr__(self): return "(%r%s%ri)" % (float(self.re), "+" if self.im >= 0 else "-", abs(float(self.im)))
+
+def cq(v):
+    return v if isinstance(v, CQ) else CQ(v, 0)
+
+def finite(elt, v):
+    if elt == 'rat': return True
+    if elt == 'f64': return math.isfinite(v)
+    return math.isfinite(v.real) and math.isfinite(v.imag)
+
+def exact(elt, v):
+    """the exact rational value of an input or an answer"""
+    if elt == 'rat': return Fraction(v)
+    if elt == 'f64': return Fraction(float(v))
+    v = complex(v)
+    return CQ(Fraction(v.real), Fraction(v.imag))
+
+def mag(elt, v):
+    """a rational bound of the modulus"""
+    if elt == 'rat': return abs(Fraction(v))
+    if elt == 'f64': return abs(Fraction(float(v)))
+    v = complex(v)
+    return abs(Fraction(v.real)) + abs(Fraction(v.imag))
+
+def dist(a, b):
+    if isinstance(a, CQ) or isinstance(b, CQ):
+        a, b = cq(a), cq(b)
+        return max(abs(a.re - b.re), abs(a.im - b.im))
+    return abs(a - b)
+
+U = Fraction(1, 2 ** 53)
+BIG = Fraction(2 ** 1000)            # bounds above this are outside the range of binary64 (overflow): not judged
+TINY = Fraction(1, 2 ** 1000)        # absolute slack for results that underflow (never reached by the generated values)
+
+def zero_of(elt):
+    return Fraction(0) if elt != 'cplx' else CQ(0, 0)
+
+def show(v):
+    if isinstance(v, Fraction): return str(v) if v.denominator < 10 ** 6 else repr(float(v))
+    return repr(v)
+
+# ------------------------------------------------------------------ C06 on the float instances
+def same_value(elt, a, b):
+    """stored / dumped value a against the reference value b.  rat: exact.  f64 / Complex<f64>: the reference applies the
+    same IEEE operations in the same order (one multiplication per scale step), so the values agree up to the way a complex
+    product is rounded; 2^-40 relative is far below any wrong entry and far above rounding"""
+    if elt == 'rat': return a == b
+    if elt == 'f64':
+        a, b = float(a), float(b)
+        if not (math.isfinite(a) and math.isfinite(b)): return (a == b) or (a != a and b != b)
+        return a == b or abs(a - b) <= 2.0 ** -40 * max(abs(a), abs(b))
+    a, b = complex(a), complex(b)
+    m = max(abs(a.real), abs(a.imag), abs(b.real), abs(b.imag))
+    return same_value('f64', a.real, b.real) and same_value('f64', a.imag, b.imag) or \
+           (math.isfinite(m) and abs(a.real - b.real) <= 2.0 ** -40 * m and abs(a.imag - b.imag) <= 2.0 ** -40 * m)
+
+class DokE(Dok):
+    """dictionary-of-keys reference over an element kind; scale multiplies natively (python float / complex = IEEE)"""
+    def __init__(self, elt, r, c, d=None):
+        Dok.__init__(self, r, c, d); self.elt = elt
+    def transpose(self): return DokE(self.elt, self.c, self.r, {(j, i): v for (i, j), v in self.d.items()})
+    def zero(self): return Fraction(0) if self.elt == 'rat' else (0.0 if self.elt == 'f64' else complex(0.0, 0.0))
+    def dense(self):
+        z = self.zero()
+        return (self.r, self.c, [self.d.get((i, j), z) for i in range(self.r) for j in range(self.c)])
+
+def doke_of_build(elt, b):
+    ref = dok_of_build(b)
+    return None if ref is None else DokE(elt, ref.r, ref.c, ref.d)
+
+def check_state_e(elt, st, ref, where):
+    """check_state for any element kind (values compared by same_value)"""
+    if (st['rows'], st['cols']) != (ref.r, ref.c):
+        return "%s: shape %dx%d, reference %dx%d" % (where, st['rows'], st['cols'], ref.r, ref.c)
+    w = wf_fields(st)
+    if w: return "%s: compressed-column structure not well-formed: %s" % (where, w)
+    if st['nonzero'] != len(ref.d):
+        return "%s: %d stored entries, the reference matrix has %d" % (where, st['nonzero'], len(ref.d))
+    for name in ('col_index', 'triplets', 'dense'):
+        if st[name][0] == 'P': return "%s: %s panicked (%s) on a well-formed matrix" % (where, name, st[name][1])
+    ci = st['col_index'][1]
+    if len(ci) != st['nonzero']: return "%s: col_index has %d entries for %d stored values" % (where, len(ci), st['nonzero'])
+    seen = set()
+    for k in range(st['nonzero']):
+        key = (st['row_index'][k], ci[k])
+        if key in seen: return "%s: position %r stored twice" % (where, key)
+        seen.add(key)
+        if key not in ref.d or not same_value(elt, st['val'][k], ref.d[key]):
+            return "%s: (row_index, col_index, val)[%d] = %r %r, reference has %r" % (where, k, key, st['val'][k], ref.d.get(key))
+    ts = st['triplets'][1]
+    if len(ts) != len(ref.d): return "%s: to_triplets lists %d entries, reference has %d" % (where, len(ts), len(ref.d))
+    if set((i, j) for (i, j, _) in ts) != set(ref.d.keys()) or len(set((i, j) for (i, j, _) in ts)) != len(ts) or \
+       any(not same_value(elt, v, ref.d[(i, j)]) for (i, j, v) in ts):
+        return "%s: to_triplets %r differs from the reference entries %r" % (where, ts, sorted(ref.d.items(), key=lambda p: p[0]))
+    dr, dc, dv = st['dense'][1]
+    er, ec, ev = ref.dense()
+    if (dr, dc) != (er, ec) or len(dv) != len(ev) or any(not same_value(elt, p, q) for p, q in zip(dv, ev)):
+        return "%s: to_dense %r differs from the reference %r" % (where, st['dense'][1], ref.dense())
+    for i in range(ref.r):
+        for j in range(ref.c):
+            g = st['get'][(i, j)]
+            if g[0] == 'P': return "%s: get(%d,%d) panicked (%s)" % (where, i, j, g[1])
+            if (i, j) in ref.d:
+                if g[1] is None or not same_value(elt, g[1][1], ref.d[(i, j)]):
+                    return "%s: get(%d,%d) = %r, reference %r" % (where, i, j, g[1], ('some', ref.d[(i, j)]))
+            elif g[1] is not None:
+                return "%s: get(%d,%d) = %r, reference None" % (where, i, j, g[1])
+    return None
+
+def oracle_hist_e(elt, b, ops, items):
+    """C06 on a history over f64 / Complex<f64> (the views involve no arithmetic except the one product per scale step)"""
+    ref = doke_of_build(elt, b)
+    if ref is None: return None
+    vals = [v for o in ops if o[0] in ('insert', 'scale') for v in [o[-1]]] + list(ref.d.values())
+    if not all(finite(elt, v) for v in vals): return None
+    rd = Reader(items, elt)
+    try:
+        if rd.peek_panic(): return "construction panicked (%s) on in-range, duplicate-free input" % rd.panic()
+        st = read_state(rd)
+        e = check_state_e(elt, st, ref, "after construction")
+        if e: return e
+        for n, o in enumerate(ops):
+            if o[0] == 'insert':
+                if o[1] >= ref.r or o[2] >= ref.c: return None
+                ref.insert(o[1], o[2], o[3])
+            elif o[0] == 'scale': ref.scale(o[1])
+            else: ref = ref.transpose()
+            where = "after step %d (%s)" % (n + 1, " ".join(str(x) for x in o))
+            if rd.peek_panic(): return "%s: the step panicked (%s)" % (where, rd.panic())
+            st = read_state(rd)
+            e = check_state_e(elt, st, ref, where)
+            if e: return e
+        if rd.more(): return "answer has %d unread items" % (len(items) - rd.k)
+    except Bad as e:
+        return "malformed answer: %s" % e
+    except IndexError:
+        return "answer ended early"
+    return None
+
+def oracle_probe(elt, b, i, j, v, items):
+    """sp.probe with in-range arguments on a build inside the claim: get agrees with the reference, insert leaves a
+    well-formed structure holding exactly the reference entries"""
+    ref = doke_of_build(elt, b)
+    if ref is None or i >= ref.r or j >= ref.c: return None
+    if not finite(elt, v) or not all(finite(elt, t) for t in ref.d.values()): return None
+    rd = Reader(items, elt)
+    try:
+        if rd.peek_panic(): return "construction panicked (%s) on in-range, duplicate-free input" % rd.panic()
+        g = rd.view(rd.option)
+        if g[0] == 'P': return "get(%d,%d) panicked (%s) in range" % (i, j, g[1])
+        if (i, j) in ref.d:
+            if g[1] is None or not same_value(elt, g[1][1], ref.d[(i, j)]): return "get(%d,%d) = %r, reference %r" % (i, j, g[1], ref.d[(i, j)])
+        elif g[1] is not None: return "get(%d,%d) = %r, reference None" % (i, j, g[1])
+        if rd.peek_panic(): return "insert(%d,%d) panicked (%s) in range" % (i, j, rd.panic())
+        f = read_fields(rd)
+        ref.insert(i, j, v)
+        where = "after insert %d %d %s" % (i, j, v)
+        if (f['rows'], f['cols']) != (ref.r, ref.c): return "%s: shape %dx%d, reference %dx%d" % (where, f['rows'], f['cols'], ref.r, ref.c)
+        w = wf_fields(f)
+        if w: return "%s: compressed-column structure not well-formed: %s" % (where, w)
+        got = {}
+        for c in range(f['cols']):
+            for k in range(f['col_start'][c], f['col_start'][c + 1]):
+                key = (f['row_index'][k], c)
+                if key in got: return "%s: position %r stored twice" % (where, key)
+                got[key] = f['val'][k]
+        if set(got) != set(ref.d) or any(not same_value(elt, got[k], ref.d[k]) for k in got):
+            return "%s: stored entries %r, reference %r" % (where, sorted(got.items(), key=lambda p: p[0]), sorted(ref.d.items(), key=lambda p: p[0]))
+    except Bad as e:
+        return "malformed answer: %s" % e
+    except IndexError:
+        return "answer ended early"
+    return None
+
+# ------------------------------------------------------------------ C07 for every element kind
+PROD_NAMES = ["multiply", "transpose_multiply", "transpose().multiply", "<y, A x>", "<A^T y, x>", "to_dense"]
+
+def read_products(rd):
+    got = [rd.view(rd.scalars), rd.view(rd.scalars), rd.view(rd.scalars), rd.view(rd.scalar), rd.view(rd.scalar), rd.view(rd.matrix)]
+    return got
+
+def product_check(elt, E, M, x, y, got, label, nscale=0):
+    """got: the six views read from the answer (after `label`).  E / M: Dok of exact entries / of moduli bounds."""
+    for n, g in zip(PROD_NAMES, got):
+        if g[0] == 'P': return "%s%s panicked (%s) on conformable operands" % (label, n, g[1])
+    ex, ey = [exact(elt, t) for t in x], [exact(elt, t) for t in y]
+    mx, my = [mag(elt, t) for t in x], [mag(elt, t) for t in y]
+    Z = zero_of(elt)
+    def mul(D, v, zero):
+        out = [zero] * D.r
+        for (i, j), a in D.d.items(): out[i] = out[i] + a * v[j]
+        return out
+    def tmul(D, v, zero):
+        out = [zero] * D.c
+        for (i, j), a in D.d.items(): out[j] = out[j] + a * v[i]
+        return out
+    ax, aty = mul(E, ex, Z), tmul(E, ey, Z)
+    bax, baty = mul(M, mx, Fraction(0)), tmul(M, my, Fraction(0))
+    yax = Z
+    for p, q in zip(ey, ax): yax = yax + p * q
+    byax = sum((p * q for p, q in zip(my, bax)), Fraction(0))
+    if elt == 'rat':
+        K1 = K2 = Fraction(0)
+    else:
+        K1 = 16 * (max(E.r, E.c) + 4 + nscale) * U
+        K2 = 16 * (E.r + E.c + 8 + nscale) * U
+    if elt != 'rat' and any(b > BIG for b in bax + baty + [byax]):
+        return None                     # beyond the range of binary64: overflow is not a statement about the products
+    def vec_ok(g, e, bnd, K):
+        if len(g) != len(e): return False
+        for p, q, b in zip(g, e, bnd):
+            if not finite(elt, p): return False
+            if dist(exact(elt, p), q) > K * b + (TINY if elt != 'rat' else 0): return False
+        return True
+    exp = [ax, aty, aty]
+    bnd = [bax, baty, baty]
+    for k in range(3):
+        if not vec_ok(got[k][1], exp[k], bnd[k], K1):
+            return "%s%s = %r, dense reference %s" % (label, PROD_NAMES[k], got[k][1], [show(t) for t in exp[k]])
+    for k in (3, 4):
+        p = got[k][1]
+        if not finite(elt, p) or dist(exact(elt, p), yax) > K2 * byax + (TINY if elt != 'rat' else 0):
+            return "%s%s = %r, dense reference %s" % (label, PROD_NAMES[k], p, show(yax))
+    dr, dc, dv = got[5][1]
+    if (dr, dc) != (E.r, E.c) or len(dv) != E.r * E.c:
+        return "%sto_dense has shape %dx%d (%d values), reference %dx%d" % (label, dr, dc, len(dv), E.r, E.c)
+    Kd = Fraction(0) if (elt == 'rat' or nscale == 0) else 16 * (nscale + 1) * U
+    for i in range(E.r):
+        for j in range(E.c):
+            p = dv[i * E.c + j]
+            e = E.d.get((i, j), Z)
+            if not finite(elt, p) or dist(exact(elt, p), e) > Kd * M.d.get((i, j), Fraction(0)) + (TINY if (elt != 'rat' and nscale) else 0):
+                return "%sto_dense(%d,%d) = %r, reference %s" % (label, i, j, p, show(e))
+    return None
+
+def exact_doks(elt, ref):
+    E = Dok(ref.r, ref.c, {k: exact(elt, v) for k, v in ref.d.items()})
+    M = Dok(ref.r, ref.c, {k: mag(elt, v) for k, v in ref.d.items()})
+    return E, M
+
+def oracle_prod_e(elt, b, x, y, a, items):
+    """C07 on one sp.prod answer over any element kind (exact for rat, rigorous rounding-error bound for floats)"""
+    ref = dok_of_build(b)
+    if ref is None or len(x) != ref.c or len(y) != ref.r: return None
+    if not all(finite(elt, t) for t in list(x) + list(y) + [a] + list(ref.d.values())): return None
+    rd = Reader(items, elt)
+    try:
+        if rd.peek_panic(): return "construction panicked (%s) on in-range, duplicate-free input" % rd.panic()
+        got = read_products(rd)
+        scaled = rd.view(rd.scalars)
+    except (Bad, IndexError) as e:
+        return "malformed answer: %s" % e
+    E, M = exact_doks(elt, ref)
+    e = product_check(elt, E, M, x, y, got, "")
+    if e: return e
+    if scaled[0] == 'P': return "scale then multiply panicked (%s) on conformable operands" % scaled[1]
+    ea, ma = exact(elt, a), mag(elt, a)
+    E2 = Dok(E.r, E.c, {k: v * ea for k, v in E.d.items()}); M2 = Dok(M.r, M.c, {k: v * ma for k, v in M.d.items()})
+    ex, mx = [exact(elt, t) for t in x], [mag(elt, t) for t in x]
+    Z = zero_of(elt)
+    ax = [Z] * E2.r; bax = [Fraction(0)] * E2.r
+    for (i, j), v in E2.d.items(): ax[i] = ax[i] + v * ex[j]
+    for (i, j), v in M2.d.items(): bax[i] = bax[i] + v * mx[j]
+    K = Fraction(0) if elt == 'rat' else 16 * (E.c + 6) * U
+    g = scaled[1]
+    if elt != 'rat' and any(bb > BIG for bb in bax): return None
+    T0 = Fraction(0) if elt == 'rat' else TINY
+    if len(g) != len(ax) or any((not finite(elt, p)) or dist(exact(elt, p), q) > K * bb + T0 for p, q, bb in zip(g, ax, bax)):
+        return "scale then multiply = %r, dense reference %s" % (g, [show(t) for t in ax])
+    return None
+
+def apply_ops(ref, ops):
+    """the reference matrix after a history; None when an insertion is out of range (outside the claim)"""
+    for o in ops:
+        if o[0] == 'insert':
+            if o[1] >= ref.r or o[2] >= ref.c: return None
+            ref.insert(o[1], o[2], o[3])
+        elif o[0] == 'scale': ref.scale(o[1])
+        else: ref = ref.transpose()
+    return ref
+
+def oracle_hprod(elt, b, ops, x, y, a, items):
+    """C07 on the matrix a history leaves behind: the six observables equal the dense reference products, and after
+    scale(a) every one of them is a times (rat) / within rounding of a times (floats) its reference value"""
+    ref = dok_of_build(b)
+    if ref is None: return None
+    vals = list(x) + list(y) + [a] + list(ref.d.values()) + [o[-1] for o in ops if o[0] in ('insert', 'scale')]
+    if not all(finite(elt, t) for t in vals): return None
+    # exact reference: the history is applied to the exact values (insert / transpose exact; every scale step is one rounding
+    # per entry in the float instances, accounted for by nscale in the bounds)
+    E = Dok(ref.r, ref.c, {k: exact(elt, v) for k, v in ref.d.items()})
+    M = Dok(ref.r, ref.c, {k: mag(elt, v) for k, v in ref.d.items()})
+    eops = [(o[0], o[1], o[2], exact(elt, o[3])) if o[0] == 'insert' else ((o[0], exact(elt, o[1])) if o[0] == 'scale' else o) for o in ops]
+    mops = [(o[0], o[1], o[2], mag(elt, o[3])) if o[0] == 'insert' else ((o[0], mag(elt, o[1])) if o[0] == 'scale' else o) for o in ops]
+    E = apply_ops(E, eops); M = apply_ops(M, mops)
+    if E is None: return None
+    if len(x) != E.c or len(y) != E.r: return None
+    nscale = sum(1 for o in ops if o[0] == 'scale')
+    rd = Reader(items, elt)
+    try:
+        if rd.peek_panic(): return "construction or a history step panicked (%s) on in-range, duplicate-free input" % rd.panic()
+        got = read_products(rd)
+        e = product_check(elt, E, M, x, y, got, "after the history: ", nscale)
+        if e: return e
+        if rd.peek_panic(): return "scale panicked (%s)" % rd.panic()
+        got2 = read_products(rd)
+        ea, ma = exact(elt, a), mag(elt, a)
+        E2 = Dok(E.r, E.c, {k: v * ea for k, v in E.d.items()}); M2 = Dok(M.r, M.c, {k: v * ma for k, v in M.d.items()})
+        e = product_check(elt, E2, M2, x, y, got2, "after the history and scale(%s): " % (a,), nscale + 1)
+        if e: return e
+        if rd.more(): return "answer has %d unread items" % (len(items) - rd.k)
+    except (Bad, IndexError) as e:
+        return "malformed answer: %s" % e
+    return None
+
+# ------------------------------------------------------------------ structured classes shared by the generators
+PATTERNS = ["empty", "single-first", "single-last", "single-top-right", "single-bottom-left", "diagonal", "antidiagonal",
+            "full", "full-but-first", "full-but-last", "first-row-full", "last-row-full", "first-col-full", "last-col-full",
+            "first-col-empty", "last-col-empty", "first-row-empty", "last-row-empty", "only-middle", "checker", "lower", "upper",
+            "border", "two-in-one-column", "two-in-one-row"]
+
+def pattern(name, r, c):
+    """the cells (column-major) of a named structure on an r x c shape"""
+    allc = [(i, j) for j in range(c) for i in range(r)]
+    if r == 0 or c == 0 or name == "empty": return []
+    f = {
+        "single-first": lambda i, j: (i, j) == (0, 0),
+        "single-last": lambda i, j: (i, j) == (r - 1, c - 1),
+        "single-top-right": lambda i, j: (i, j) == (0, c - 1),
+        "single-bottom-left": lambda i, j: (i, j) == (r - 1, 0),
+        "diagonal": lambda i, j: i == j,
+        "antidiagonal": lambda i, j: i + j == min(r, c) - 1,
+        "full": lambda i, j: True,
+        "full-but-first": lambda i, j: (i, j) != (0, 0),
+        "full-but-last": lambda i, j: (i, j) != (r - 1, c - 1),
+        "first-row-full": lambda i, j: i == 0,
+        "last-row-full": lambda i, j: i == r - 1,
+        "first-col-full": lambda i, j: j == 0,
+        "last-col-full": lambda i, j: j == c - 1,
+        "first-col-empty": lambda i, j: j != 0 or c == 1,
+        "last-col-empty": lambda i, j: j != c - 1 or c == 1,
+        "first-row-empty": lambda i, j: i != 0 or r == 1,
+        "last-row-empty": lambda i, j: i != r - 1 or r == 1,
+        "only-middle": lambda i, j: (i, j) == (r // 2, c // 2),
+        "checker": lambda i, j: (i + j) % 2 == 0,
+        "lower": lambda i, j: i >= j,
+        "upper": lambda i, j: i <= j,
+        "border": lambda i, j: i in (0, r - 1) or j in (0, c - 1),
+        "two-in-one-column": lambda i, j: j == c - 1 and i in (0, r - 1),
+        "two-in-one-row": lambda i, j: i == r - 1 and j in (0, c - 1),
+    }[name]
+    return [p for p in allc if f(*p)]
+
+SHAPE_CLASSES = ["1x1", "1xn", "nx1", "wide", "tall", "square", "max"]
+
+def shape_of(rng, cls, nmax):
+    if cls == "1x1": return (1, 1)
+    if cls == "1xn": return (1, rng.range(2, nmax))
+    if cls == "nx1": return (rng.range(2, nmax), 1)
+    if cls == "wide":
+        r = rng.range(2, max(2, nmax // 2)); return (r, rng.range(r + 1, nmax))
+    if cls == "tall":
+        c = rng.range(2, max(2, nmax // 2)); return (rng.range(c + 1, nmax), c)
+    if cls == "square":
+        n = rng.range(2, nmax); return (n, n)
+    return rng.choice([(nmax, nmax), (nmax, 1), (1, nmax), (nmax, nmax - 1), (nmax - 1, nmax)])
+
+# value classes of one entry / scalar (brief: 0, -0.0, 1, -1, 2, 1/2, for complex +-i, axis-aligned, unit modulus off the axes,
+# equal entries, opposite sign and equal magnitude, one huge + one tiny)
+def special_scalars(elt):
+    if elt == 'rat':
+        return [Fraction(0), Fraction(1), Fraction(-1), Fraction(2), Fraction(1, 2), Fraction(-2), Fraction(-1, 2), Fraction(3),
+                Fraction(-7, 3), Fraction(10 ** 4), Fraction(1, 10 ** 4)]
+    if elt == 'f64':
+        return [0.0, -0.0, 1.0, -1.0, 2.0, 0.5, -2.0, 3.0, 0.1, -1.0 / 3.0, 2.0 ** 200, 2.0 ** -200]
+    return [complex(0.0, 0.0), complex(-0.0, 0.0), complex(1.0, 0.0), complex(-1.0, 0.0), complex(0.0, 1.0), complex(0.0, -1.0),
+            complex(2.0, 0.0), complex(0.0, 0.5), complex(-3.0, 0.0), complex(0.0, -4.0), complex(0.6, 0.8), complex(-0.8, 0.6),
+            complex(1.0, 1.0), complex(1.0, -1.0), complex(0.1, -1.0 / 3.0), complex(2.0 ** 200, 0.0), complex(0.0, 2.0 ** -200)]
+
+FILLS = ["random", "ones", "equal", "opposite", "zeros", "special", "huge-tiny", "minus-ones"]
+
+def fill_values(rng, elt, fill, n, rand):
+    """n entry values of a named value class; rand(rng, elt) draws an ordinary value"""
+    sp = special_scalars(elt)
+    one = sp[2]
+    if fill == "random": return [rand(rng, elt) for _ in range(n)]
+    if fill == "ones": return [one] * n
+    if fill == "minus-ones": return [sp[3]] * n
+    if fill == "zeros": return [sp[0]] * n                                  # explicitly stored zeros are stored entries
+    if fill == "equal":
+        v = rand(rng, elt)
+        return [v] * n
+    if fill == "opposite":                                                  # equal magnitude, alternating sign: sums cancel
+        v = rand(rng, elt)
+        if v == 0: v = sp[6]
+        return [v if k % 2 == 0 else -v for k in range(n)]
+    if fill == "special": return [rng.choice(sp) for _ in range(n)]
+    if fill == "huge-tiny":
+        return [sp[-2] if k % 2 == 0 else sp[-1] for k in range(n)] if rng.chance(1, 2) else \
+               [(sp[-2] if rng.chance(1, 4) else (sp[-1] if rng.chance(1, 3) else rand(rng, elt))) for k in range(n)]
+    raise ValueError(fill)
+
+BUILD_FORMS = ["T-shuffle", "T-rowmajor", "T-reverse", "T-colmajor", "V-unsorted", "V-sorted"]
+
+def build_of(rng, form, r, c, cells, vals):
+    """a build of the entries (cells[k] -> vals[k]) in a named construction form"""
+    ent = list(zip(cells, vals))
+    if form.startswith("T"):
+        ts = [(i, j, v) for ((i, j), v) in ent]
+        if form == "T-shuffle": ts = rng.shuffle(ts)
+        elif form == "T-rowmajor": ts = sorted(ts, key=lambda t: (t[0], t[1]))
+        elif form == "T-reverse": ts = sorted(ts, key=lambda t: (t[1], t[0]), reverse=True)
+        else: ts = sorted(ts, key=lambda t: (t[1], t[0]))
+        return ('T', r, c, ts)
+    vv, ri, cs = [], [], [0]
+    for j in range(c):
+        col = [(i, v) for ((i, jj), v) in ent if jj == j]
+        col = sorted(col, key=lambda p: p[0]) if form == "V-sorted" else rng.shuffle(col)
+        for (i, v) in col:
+            ri.append(i); vv.append(v)
+        cs.append(len(ri))
+    return ('V', r, c, vv, ri, cs)
+
+VECTOR_CLASSES = ["random", "zeros", "ones", "constant", "unit-first", "unit-last", "unit-middle", "alternating", "first-zero",
+                  "last-zero", "only-ends", "special", "huge-tiny", "minus-ones", "ramp"]
+
+def vector_of(rng, elt, cls, n, rand):
+    sp = special_scalars(elt)
+    zero, one, mone = sp[0] if elt != 'f64' else 0.0, sp[2], sp[3]
+    if elt == 'cplx': zero = complex(0.0, 0.0)
+    if cls == "random": return [rand(rng, elt) for _ in range(n)]
+    if cls == "zeros": return [zero] * n
+    if cls == "ones": return [one] * n
+    if cls == "minus-ones": return [mone] * n
+    if cls == "constant":
+        v = rand(rng, elt); return [v] * n
+    if cls in ("unit-first", "unit-last", "unit-middle"):
+        v = [zero] * n
+        if n: v[{"unit-first": 0, "unit-last": n - 1, "unit-middle": n // 2}[cls]] = one if rng.chance(1, 2) else rand(rng, elt)
+        return v
+    if cls == "alternating": return [one if k % 2 == 0 else mone for k in range(n)]
+    if cls == "first-zero": return [zero if k == 0 else rand(rng, elt) for k in range(n)]
+    if cls == "last-zero": return [zero if k == n - 1 else rand(rng, elt) for k in range(n)]
+    if cls == "only-ends": return [rand(rng, elt) if k in (0, n - 1) else zero for k in range(n)]
+    if cls == "special": return [rng.choice(sp) for _ in range(n)]
+    if cls == "huge-tiny": return [sp[-2] if k % 2 == 0 else sp[-1] for k in range(n)]
+    if cls == "ramp":
+        if elt == 'rat': return [Fraction(k + 1) for k in range(n)]
+        if elt == 'f64': return [float(k + 1) for k in range(n)]
+        return [complex(k + 1, -(k + 2)) for k in range(n)]
+    raise ValueError(cls)
+
+# ------------------------------------------------------------------ operation classes of a history
+def final_shape(r, c, ops):
+    for o in ops:
+        if o[0] == 'transpose': r, c = c, r
+    return r, c
+
+OP_CLASSES = ["insert-fresh", "insert-first-cell", "insert-last-cell", "overwrite", "overwrite-same", "insert-zero", "overwrite-zero",
+              "scale-0", "scale-1", "scale--1", "scale-2", "scale-1/2", "scale-random", "transpose"]
+
+def op_of(g, elt, cls, r, c, occ, rand_val):
+    """one operation of a named class on an r x c matrix with occupied cells occ (dict cell -> value); None if impossible"""
+    sp = special_scalars(elt)
+    zero, one, mone = sp[0], sp[2], sp[3]
+    two = Fraction(2) if elt == 'rat' else (2.0 if elt == 'f64' else complex(2.0, 0.0))
+    half = Fraction(1, 2) if elt == 'rat' else (0.5 if elt == 'f64' else complex(0.0, 0.5))
+    if cls == "transpose": return ('transpose',)
+    if cls.startswith("scale"):
+        v = {"scale-0": zero, "scale-1": one, "scale--1": mone, "scale-2": two, "scale-1/2": half}.get(cls)
+        if v is None:
+            v = rand_val(g, elt)
+        return ('scale', v)
+    if r * c == 0: return None
+    free = [(i, j) for j in range(c) for i in range(r) if (i, j) not in occ]
+    if cls == "insert-fresh":
+        if not free: return None
+        (i, j) = g.choice(free); return ('insert', i, j, rand_val(g, elt))
+    if cls == "insert-first-cell": return ('insert', 0, 0, rand_val(g, elt))
+    if cls == "insert-last-cell": return ('insert', r - 1, c - 1, rand_val(g, elt))
+    if cls == "insert-zero":
+        if not free: return None
+        (i, j) = g.choice(free); return ('insert', i, j, zero)
+    if not occ: return None
+    (i, j) = g.choice(sorted(occ))
+    if cls == "overwrite": return ('insert', i, j, rand_val(g, elt))
+    if cls == "overwrite-same": return ('insert', i, j, occ[(i, j)])
+    if cls == "overwrite-zero": return ('insert', i, j, zero)
+    raise ValueError(cls)
+
+def track(occ, r, c, o):
+    """occupied cells (cell -> value as inserted; scaled values are not tracked, only used for overwrite-same before a scale)"""
+    if o[0] == 'insert':
+        occ = dict(occ); occ[(o[1], o[2])] = o[3]; return occ, r, c
+    if o[0] == 'transpose': return {(j, i): v for (i, j), v in occ.items()}, c, r
+    return {k: v * o[1] for k, v in occ.items()}, r, c
+
